@@ -52,5 +52,23 @@ def main():
         return 2
 
 
+def main_in_scratch():
+    """Everything a check writes temporarily (its own files, TLC's, and what the code under test leaves behind when a
+    process is killed - e.g. the CA bundle the application writes at start-up) lives in one scratch directory that
+    is removed when the check ends."""
+    import shutil
+    import tempfile
+    base = tempfile.mkdtemp(prefix='verif_check_')
+    os.environ['TMPDIR'] = base
+    tempfile.tempdir = base
+    me = os.getpid()
+    try:
+        return main()
+    finally:
+        if os.getpid() == me:         # (a forked child that returns here must not remove the parent's files)
+            tempfile.tempdir = None
+            shutil.rmtree(base, ignore_errors=True)
+
+
 if __name__ == '__main__':
-    sys.exit(main())
+    sys.exit(main_in_scratch())
